@@ -9,7 +9,9 @@ COMMON_NOTE = (
     "no native_decide, no sorry); the Lean statements in lean/IoosQc/Props are a reading of properties.jsonl; the model in "
     "lean/IoosQc/Model is hand-written and tied to /repo only by the differential correspondence run (generators, "
     "canonicalisation in harness/sut.py, Fraction/JSON wire, Lean driver decoding); float64 is treated as exact on the dyadic "
-    "input lattice (DESIGN.md §3); numpy/pandas/xarray/geographiclib behaviour is modelled, not verified."
+    "input lattice (DESIGN.md §3); numpy/pandas/xarray/geographiclib behaviour is modelled, not verified. C01, C04, C19, C20 also "
+    "have source pins: literal tables read from /repo by harness/extract.py (Python ast) and checked by the kernel against "
+    "IoosQc/Theorems/SourcePin.lean on every run."
 )
 
 CHECKS = {
@@ -28,7 +30,8 @@ CHECKS = {
     "C04": ("Theorems C04_main, C04_compareAt, C04_perm, C04_dup, C04_assoc, C04_idem, C04_worst_ge/mem: the priority loop equals "
             "the maximum by precedence for every column; order / multiplicity / grouping independence proved outright; "
             "correspondence runs qartod_compare, aggregate() and PandasStore.compute_aggregate on enumerated and random vectors.",
-            "Lean 4 proof (algebraic laws of the aggregate) + differential correspondence"),
+            "Lean 4 proof (algebraic laws of the aggregate; C04_pin_priorities for every admissible priority table, instantiated with the "
+            "table read from the source) + differential correspondence"),
     "C08": ("Theorem C08_climatology (+ corollaries), parametric in the calendar function: fold over members = flag of the last "
             "covering member; calendar fields checked against pandas day by day.",
             "Lean 4 proof (fold induction) + differential correspondence incl. calendar sweep"),
